@@ -82,7 +82,8 @@ def census(eng, R, prop):
         for f in p.all_functions():
             if f.module is not m:
                 continue
-            for call, where in _decision_calls(f.node):
+            # (a census of the sites as written: read from the source tree, not from the canonical one where helpers are written out at their call sites)
+            for call, where in _decision_calls(eng._source_func(f).node):
                 key = (rel, f.qualname, _call_name(call))
                 if key in REVIEWED:
                     R.note("reviewed tolerance %s in %s: %s" % (key[2], f.qualname, REVIEWED[key]))
